@@ -159,9 +159,21 @@ func HarnessC02Empty() {
 		elseBody = ""
 	}
 	construct, want, chosen := "", "", false
+	failing := -1 // index of a condition that is left out of the data: reaching it fails the render, empty bodies or not
+	if vChoice("unbound-condition", 2) == 1 {
+		failing = vChoice("unbound-index", n+1)
+	}
+	mustFail := false
 	for i := 0; i <= n; i++ {
 		c := vBool(c02Names[i])
-		data[c02Names[i]] = c
+		if i == failing {
+			if !chosen {
+				mustFail = true
+			}
+			c = false
+		} else {
+			data[c02Names[i]] = c
+		}
 		if i == 0 {
 			construct += "@if(" + c02Names[i] + ")" + bodies[i]
 		} else {
@@ -189,6 +201,10 @@ func HarnessC02Empty() {
 	}
 	out, err := EvaluateString(src, data)
 	vCover("rendered")
+	if mustFail {
+		vAssert(err != nil && out == "", "error-in-an-evaluated-condition-fails-the-render")
+		return
+	}
 	vAssert(err == nil, "construct-with-empty-bodies-renders-without-error")
 	vAssert(out == exp, "exactly-the-first-truthy-branch-is-rendered")
 }
